@@ -582,8 +582,9 @@ impl EdgeDeletionEntry {
             src_entity=? AND 
             label=? AND 
             dest=? AND 
-            cdate=?
+            cdate<=?
         ";
+        //the reference stored here can be older than the deleted one (it was removed and added again elsewhere): it is removed too
         let mut stmt = conn.prepare_cached(query)?;
         for e in edges {
             stmt.execute((&e.src, &e.src_entity, &e.label, &e.dest, &e.cdate))?;
